@@ -120,3 +120,10 @@ pub type IntPoint = euclid::default::Point2D<i32>;
 pub type Point = euclid::default::Point2D<f32>;
 pub type Transform = euclid::default::Transform2D<f32>;
 pub type Vector = euclid::default::Vector2D<f32>;
+
+/// Verification hook (only with `--cfg raqote_verif`): the private dasher, so that its
+/// output polyline can be inspected directly.
+#[cfg(raqote_verif)]
+pub fn verif_dash_path(path: &Path, dash_array: &[f32], dash_offset: f32) -> Path {
+    crate::dash::dash_path(path, dash_array, dash_offset)
+}
